@@ -347,16 +347,20 @@ fn c09(_ctx: &Ctx, r: &mut Report) {
     r.bound = "exhaustive over the listed features (2^k combinations)".into();
     for vis in ["", "pub", "pub(crate)"] {
         for unsafety in ["", "unsafe"] {
-            for feat in 0..32u32 {
+            for feat in 0..64u32 {
+                let const_first = feat & 32 != 0;
                 let generics = feat & 1 != 0;
                 let supers = feat & 2 != 0;
                 let wher = feat & 4 != 0;
                 let default_body = feat & 8 != 0;
                 let assoc = feat & 16 != 0;
+                if const_first && !generics {
+                    continue;
+                }
                 for opts in ["", "mockall", "unimock", "delegate_by = ref"] {
                     let tattrs = "#[doc = \"trait docs\"] #[allow(dead_code)]";
                     let body = format!(
-                        "{} #[doc = \"m\"] fn f(&self, a: i32) -> i32; {} async fn h(&self) -> u8;",
+                        "{} #[doc = \"m\"] fn f(&self, a: i32) -> i32; {} async fn h<X>(&self, x: X) -> u8 where X: Send + 'static, Self: Sized;",
                         if assoc { "type Out;" } else { "" },
                         if default_body { "fn g(&self) -> i32 { 42 }" } else { "fn g(&self) -> i32;" }
                     );
@@ -365,7 +369,7 @@ fn c09(_ctx: &Ctx, r: &mut Report) {
                         tattrs,
                         vis,
                         unsafety,
-                        if generics { "<'a, T: Clone, const N: usize>" } else { "" },
+                        if generics && const_first { "<'a, const N: usize, T: Clone, U>" } else if generics { "<'a, T: Clone, const N: usize>" } else { "" },
                         if supers { ": Send + Sync" } else { "" },
                         if wher && generics { "where T: Default" } else if wher { "where Self: Sized" } else { "" },
                         body
@@ -426,6 +430,18 @@ fn c09(_ctx: &Ctx, r: &mut Report) {
                             }
                             if a.sig.asyncness.is_none() && tt_string(&a.sig) != tt_string(&b.sig) {
                                 r.fail("method-signature", &input, format!("`{}` became `{}`", tt_string(&a.sig), tt_string(&b.sig)));
+                            }
+                            if a.sig.asyncness.is_some() {
+                                // the documented rewrite touches `async` and the return type only
+                                let strip = |s: &syn::Signature| {
+                                    let mut s = s.clone();
+                                    s.asyncness = None;
+                                    s.output = syn::ReturnType::Default;
+                                    format!("{} {}", tt_string(&s), tt_string(&s.generics.where_clause))
+                                };
+                                if strip(&a.sig) != strip(&b.sig) {
+                                    r.fail("async-method-signature", &input, format!("apart from `async` / the return type, `{}` became `{}`", strip(&a.sig), strip(&b.sig)));
+                                }
                             }
                             if a.default.is_some() && b.default.is_none() {
                                 r.fail("default-body-dropped", &input, format!("the default body of `{}` was dropped", a.sig.ident));
